@@ -225,8 +225,8 @@ def run(ck: core.Check):
         hist = lh.gen_history(rng, prog, rng.randrange(2, 9))
         hcases.append({"prog": prog, "hist": hist, "ref": ref, "salt": rng.randrange(0, 200)})
     inproc = []
-    # (quick: all histories are generated - the later phases draw from the same PRNG - the first 560 are run)
-    for c in hcases[: ck.pick(900 if changed else 560, len(hcases))]:
+    # (quick: all histories are generated - the later phases draw from the same PRNG - the first 480 are run)
+    for c in hcases[: ck.pick(900 if changed else 480, len(hcases))]:
         try:
             r = lh.run_case(c["prog"], c["hist"], c["ref"])
         except Exception as e:  # noqa: BLE001 - observation machinery, not a verdict
